@@ -59,7 +59,25 @@ theorem C10_superset_full (F : BodyFn) (P : Project) (cfg : Cfg) (w : World) (dp
     · obtain ⟨_, l, hsub, _, hl'⟩ := C01_once F P cfg g so so' _ s rp hso hl
       rw [hlog, hl'] at ht
       exact hsub.subset (by simpa using ht)
-  exact (build_Q hreal hmf hwf hd hc hr t hpick).2.2 ht
+  exact (build_Q hreal (Or.inl hmf) hwf hd hc hr t hpick).2.2 ht
+
+/-- **C10_superset_limit.** The same with ANY failure limit (`max_failures`, `stop_after_first_failure`) on both builds,
+provided the dry run reports no FAIL (in a dry run a task fails only when a dependency is missing at setup): a failure
+limit counts failed tasks, so it must not cut the announcement — WOULD_BE_EXECUTED reports never trip it. -/
+theorem C10_superset_limit (F : BodyFn) (P : Project) (cfg : Cfg) (w : World) (dp rp : List Nat) (d r : Result)
+    (hreal : cfg.dry = false) (hnofail : ∀ t, (t, Outcome.fail) ∉ d.reports) (hwf : C10_srcNotProduct P)
+    (hd : build F P { cfg with dry := true } w dp = .ok d) (hc : d.complete = true)
+    (hr : build F P cfg d.w rp = .ok r) :
+    ∀ t, t ∈ r.log → (t, Outcome.wouldBeExecuted) ∈ d.reports := by
+  rw [C10_noworld F P _ w dp d rfl hd] at hr
+  intro t ht
+  have hpick : t ∈ rp := by
+    rcases build_cases F P cfg w rp r hr with ⟨_, _, hlog, _⟩ | ⟨g, marks, so, so', s, _, hso, hl, _, hlog, _, _⟩
+    · rw [hlog] at ht; cases ht
+    · obtain ⟨_, l, hsub, _, hl'⟩ := C01_once F P cfg g so so' _ s rp hso hl
+      rw [hlog, hl'] at ht
+      exact hsub.subset (by simpa using ht)
+  exact (build_Q hreal (Or.inr hnofail) hwf hd hc hr t hpick).2.2 ht
 
 /-- Former finding F20 witness: 0 ⟶ (20) ⟶ 1, task 1 marked `persist`; everything was built once, then file 20 was tampered. -/
 def f20P : Project := ⟨[{ id := 0, src := 90, deps := [10], prods := [20], after := [] },
@@ -87,7 +105,7 @@ theorem C10_failures (F : BodyFn) (P : Project) (cfg : Cfg) (w : World) (dp rp :
     (((t, Outcome.fail) ∈ d.reports ∨ (t, Outcome.skipPrevFailed) ∈ d.reports) →
       (t, Outcome.skip) ∈ r.reports ∨ (t, Outcome.skipPrevFailed) ∈ r.reports ∨ (t, Outcome.fail) ∈ r.reports) := by
   rw [C10_noworld F P _ w dp d rfl hd] at hr
-  have := build_Q hreal hmf hwf hd hc hr t ht
+  have := build_Q hreal (Or.inl hmf) hwf hd hc hr t ht
   exact ⟨this.1, this.2.1⟩
 
 /-! ## Non-vacuity -/
@@ -125,5 +143,12 @@ example : (build c10F c10P { dry := true } c10w2 [0, 3, 1, 2]).toOption.map (fun
     some ([.wouldBeExecuted, .wouldBeExecuted, .wouldBeExecuted, .wouldBeExecuted], true) := by decide +kernel
 example : (build c10F c10P {} c10w2 [0, 3, 1, 2]).toOption.map (fun r => (r.reports.map (·.2), r.log)) =
     some ([.success, .success, .persistence, .skipUnchanged], [0, 3]) := by decide +kernel
+
+/-- Non-vacuity of `C10_superset_limit`: with `max_failures = 1` the dry run over the fresh project still announces all
+four tasks (no FAIL), is complete, and the limited real build executes all of them. -/
+example : (build c10F c10P { dry := true, maxFail := some 1 } c10w [0, 3, 1, 2]).toOption.map
+    (fun r => (r.reports.map (·.2), r.complete)) =
+    some ([.wouldBeExecuted, .wouldBeExecuted, .wouldBeExecuted, .wouldBeExecuted], true) := by decide +kernel
+example : (build c10F c10P { maxFail := some 1 } c10w [0, 3, 1, 2]).toOption.map (·.log) = some [0, 3, 1, 2] := by decide +kernel
 
 end Pytask
